@@ -9,7 +9,7 @@ The laws of the builtins underneath (contract G1) are supplied here:
 The real _Element/IntegerGroup methods, util.number_to_bytes etc. run on top, unmodified."""
 import z3
 from .core import Ctx, SymInt, SymBool, SymBytes, Flags, T, EngineUnsupported, _mk_bool
-from .absgroup import norm
+from .absgroup import norm, strip_mod, norm_mod
 
 
 class DlogDomain:
@@ -33,10 +33,23 @@ class DlogDomain:
             self.const_logs[c] = v
         return self.const_logs[c]
 
+    def val_term(self, log, ctx=None):
+        """VAL(log) for a normalised log, registered for the pairwise congruence axioms"""
+        c = ctx or Ctx.cur
+        log = norm_mod(log, self.q)
+        t = self.VAL(log)
+        tab = c.table("dlog_vals")
+        if not any(l.eq(log) for l in tab):
+            tab.append(log)
+            c.side += [t >= 1, t < self.p]
+        return t
+
     def install(self, ctx):
         DlogDomain.cur = self
         ctx.data["dlog_dom"] = self
         Flags.pow_stub = dlog_pow
+        Flags.mul_hook = dlog_mul_hook
+        Flags.int_lift = dlog_lift
         if value_axioms not in ctx.axiom_providers:
             ctx.axiom_providers.append(value_axioms)
 
@@ -49,13 +62,8 @@ class Dlog(SymInt):
 
     def __init__(self, log):
         D = DlogDomain.cur
-        self.log = norm(log)
-        SymInt.__init__(self, D.VAL(self.log))
-        c = Ctx.cur
-        tab = c.table("dlog_vals")
-        if not any(l.eq(self.log) for l in tab):
-            tab.append(self.log)
-            c.side += [self.t >= 1, self.t < D.p]
+        self.log = norm_mod(log, D.q)
+        SymInt.__init__(self, D.val_term(self.log))
 
     def __mul__(s, o):
         D = DlogDomain.cur
@@ -135,12 +143,37 @@ class PendingProd(SymInt):
     __hash__ = None
 
 
+def dlog_lift(v):
+    """an integer that is syntactically g^log, or a residue already proved a member, is a Dlog"""
+    D = DlogDomain.cur
+    if isinstance(v, Dlog) or D is None or not isinstance(v, SymInt):
+        return v
+    if z3.is_app(v.t) and v.t.decl().eq(D.VAL):
+        return Dlog(v.t.arg(0))
+    known = Ctx.cur.data.get("member_logs", {})
+    if v.t.get_id() in known:
+        return Dlog(known[v.t.get_id()])
+    return v
+
+
+def dlog_mul_hook(a, b):
+    a2, b2 = dlog_lift(a), dlog_lift(b)
+    if isinstance(a2, Dlog) and isinstance(b2, Dlog):
+        return PendingProd(a2.log + b2.log)
+    return None
+
+
+def uninstall():
+    Flags.pow_stub = None
+    Flags.mul_hook = None
+    Flags.int_lift = None
+    DlogDomain.cur = None
+
+
 def _exponent(e, q):
     """integer term of an exponent; a value written `t % q` contributes t (g^q = 1)"""
     if isinstance(e, SymInt):
-        if e.unmod is not None and isinstance(e.unmod[1], int) and e.unmod[1] == q:
-            return e.unmod[0]
-        return e.t
+        return strip_mod(e.t, q)
     return T(e)
 
 
